@@ -330,6 +330,22 @@ Inductive op :=
 | OBuild
 | OInstall (sn : snapshot).
 
+(* the same ops on the MemStore *)
+Definition ms_step (s : mstore) (o : op) : mstore :=
+  match o with
+  | OVote v => ms_save_vote v s
+  | OAppend es => ms_append es s
+  | ODelete l => ms_delete_since l s
+  | OPurge l => ms_purge l s
+  | OApply es => ms_apply es s
+  | OBuild => ms_build s
+  | OInstall sn => ms_install sn s
+  end.
+Definition ms_run (ops : list op) (s : mstore) : mstore := fold_left ms_step ops s.
+
+(* the snapshot a leader that applied [es] to an empty state machine builds and sends *)
+Definition leader_snapshot (es : list entry) : snapshot := sm_snapshot (sm_apply es smv0).
+
 (* in-memory effect of an op (RocksStore fields last_applied_log, last_membership, state) *)
 Definition op_volatile (o : op) (v : smv) : smv :=
   match o with
